@@ -19,7 +19,17 @@ from . import sx
 USED = {}
 LAST = {}          # name -> argument of the most recent call of that stub (for harnesses)
 _N = [0]
-OPTIONS = {"qr_positive_diag": True, "svd_positive": True, "eigh_spectrum": "real"}
+OPTIONS = {"qr_positive_diag": True, "svd_positive": True, "eigh_spectrum": "real",
+           # contracts=False: the factorisation stubs return fresh factors of the right shapes and add NO
+           # contract to the hypotheses (fewer assumptions: sound).  For goals that only concern shapes
+           # (bond caps of truncating runs), where the product contracts of huge operands are dead weight.
+           "contracts": True,
+           # range_consequences=True: for a tall isometric factor (m > r) also record the implied
+           #   Q Q^dag A = A   (qr)      U U^dag A = A,  A V^dag V = A   (svd)
+           # as *derived* hypotheses, each divided by the monomial of strictly positive symbols common to all
+           # its terms (p = 0 <=> p / mono = 0).  Sound (consequences of the contract); opt-in because extra
+           # rewrite rules change the certificate search of existing obligations.
+           "range_consequences": False}
 
 
 def reset():
@@ -80,6 +90,25 @@ def _add_eq(label, M, real, derived=False):
                     dest.append((f"{label}{list(idx)}*", pc))
 
 
+def _strip_common(M):
+    """entrywise: divide each polynomial by the largest monomial of strictly positive (invertible)
+    symbols common to all of its terms"""
+    out = np.empty(M.shape, dtype=object)
+    pos = P.TAB.positive
+    for idx in np.ndindex(*M.shape):
+        p = P.lift(M[idx])
+        common = None
+        for mono in p.t:
+            d = {s_: e for s_, e in mono if s_ in pos and s_ in P.TAB.invertible and isinstance(e, int) and e > 0}
+            common = d if common is None else {s_: min(e, d[s_]) for s_, e in common.items() if s_ in d}
+            if not common:
+                break
+        if common:
+            p = p * P.Poly({tuple(sorted(common.items())): 1}).inverse()
+        out[idx] = p
+    return out
+
+
 def _eye(n):
     e = np.empty((n, n), dtype=object)
     for i in range(n):
@@ -116,6 +145,8 @@ def qr_stub(A, mode="reduced"):
             # diagonal real positive (the stabilised form); in the real case the thorough
             # tier frees the sign and lets the stabiliser's branches fork
             R[i, i] = P.positive(f"R{k}d{i}")
+    if not OPTIONS["contracts"]:
+        return Q, R
     _add_eq(f"qr{k}:QhQ-I", _dag(Q).dot(Q) - _eye(r), real)
     _add_eq(f"qr{k}:QR-A", Q.dot(R) - A, real)
     # consequences of the contract (sound: implied by the two lines above); they lower the
@@ -125,6 +156,8 @@ def qr_stub(A, mode="reduced"):
     # consequences (implied by the contract): Gram identity and R = Q^dag A
     _add_eq(f"qr{k}:RhR-AhA", _dag(R).dot(R) - _dag(A).dot(A), real, derived=True)
     _add_eq(f"qr{k}:QhA-R", _dag(Q).dot(A) - R, real, derived=True)
+    if OPTIONS["range_consequences"] and m > r:
+        _add_eq(f"qr{k}:QQhA-A", _strip_common(Q.dot(_dag(Q)).dot(A) - A), real, derived=True)
     return Q, R
 
 
@@ -153,10 +186,13 @@ def svd_stub(A, full_matrices=True, compute_uv=True, hermitian=False, **kw):
             c.polyvar(P.sid(s[i]))
     if not compute_uv:
         # singular values only: tied to A through the power sums  sum s^(2j) = Tr (A^dag A)^j
-        _power_sums(A, s, m, n, r, k, P.HYP)
+        if OPTIONS["contracts"]:
+            _power_sums(A, s, m, n, r, k, P.HYP)
         return s
     U = _fresh(f"U{k}", (m, r), real, constrained=True)
     VH = _fresh(f"V{k}", (r, n), real, constrained=True)
+    if not OPTIONS["contracts"]:
+        return U, s, VH
     S = np.empty((r, r), dtype=object)
     for i in range(r):
         for j in range(r):
@@ -175,6 +211,11 @@ def svd_stub(A, full_matrices=True, compute_uv=True, hermitian=False, **kw):
     _add_eq(f"svd{k}:VS2Vh-AhA", _dag(VH).dot(S2).dot(VH) - _dag(A).dot(A), real, derived=True)
     _add_eq(f"svd{k}:US2Uh-AAh", U.dot(S2).dot(_dag(U)) - A.dot(_dag(A)), real, derived=True)
     _power_sums(A, s, m, n, r, k, P.HYP_DERIVED)
+    if OPTIONS["range_consequences"]:
+        if m > r:
+            _add_eq(f"svd{k}:UUhA-A", _strip_common(U.dot(_dag(U)).dot(A) - A), real, derived=True)
+        if n > r:
+            _add_eq(f"svd{k}:AVhV-A", _strip_common(A.dot(_dag(VH)).dot(VH) - A), real, derived=True)
     return U, s, VH
 
 
@@ -217,6 +258,8 @@ def eigh_stub(A, *a, **kw):
         for i in range(n - 1):
             c.add(c.polyvar(P.sid(w[i])) <= c.polyvar(P.sid(w[i + 1])))
     V = _fresh(f"E{k}", (n, n), real, constrained=True)
+    if not OPTIONS["contracts"]:
+        return w, V
     W = np.empty((n, n), dtype=object)
     for i in range(n):
         for j in range(n):
